@@ -75,9 +75,16 @@ func (s *Stmt) JSON() map[string]any {
 // Mark identifies the first instruction of a statement (or a block end) in a compiled script: the VM hook
 // turns the instruction stream into the statement-level trace that ExecTrace.tla replays.
 type Mark struct {
-	Ev   string // statement kind or "end-body" / "end-catch" / "end-fin" / "ret" / "subret"
-	Path string // position in the tree
+	Ev   string // statement kind, or "end" (ENDTRY / ENDFINALLY / RET closing the block Path), or "at" (first instruction of a CATCH / FINALLY block)
+	Path []any  // the block the statement belongs to, as ExecImpl.tla names it: a sequence of <<index, branch>> pairs
+	Idx  int    // 1-based index of the statement in its block (0 for "end" / "at")
 	S    *Stmt
+}
+
+func sub(path []any, idx int, branch string) []any {
+	p := make([]any, 0, len(path)+1)
+	p = append(p, path...)
+	return append(p, []any{idx, branch})
 }
 
 type method struct {
@@ -112,6 +119,7 @@ type compiler struct {
 	cb    [NC]*cbuild
 	entry *cbuild
 	nmeth int
+	npay  int
 }
 
 const (
@@ -129,15 +137,15 @@ func pushHash(a *asm, idx int) {
 	a.op(opcode.PICKITEM)
 }
 
-func (c *compiler) block(cb *cbuild, self int, b []Stmt, path string) {
+func (c *compiler) block(cb *cbuild, self int, b []Stmt, path []any) {
 	for i := range b {
-		c.stmt(cb, self, &b[i], fmt.Sprintf("%s%d", path, i))
+		c.stmt(cb, self, &b[i], path, i+1)
 	}
 }
 
-func (c *compiler) stmt(cb *cbuild, self int, s *Stmt, path string) {
+func (c *compiler) stmt(cb *cbuild, self int, s *Stmt, path []any, idx int) {
 	a := &cb.a
-	cb.marks[a.pos()] = Mark{Ev: s.K, Path: path, S: s}
+	cb.marks[a.pos()] = Mark{Ev: s.K, Path: path, Idx: idx, S: s}
 	switch s.K {
 	case "put":
 		a.pushBytes([]byte{byte(s.Val)})
@@ -189,9 +197,12 @@ func (c *compiler) stmt(cb *cbuild, self int, s *Stmt, path string) {
 		a.syscall(interopnames.SystemContractCall)
 		a.op(opcode.DROP)
 	case "pay":
-		code := s.Amt // the transferred amount doubles as the dispatch code of the callback body (unique per tree)
-		loadH(a)
+		c.npay++
+		code := c.npay // data = [H, code]: the callback dispatches on code
 		a.pushInt(int64(code))
+		loadH(a)
+		a.op(opcode.PUSH2, opcode.PACK)
+		a.pushInt(int64(s.Amt))
 		pushHash(a, s.C)
 		pushHash(a, self)
 		a.op(opcode.PUSH4, opcode.PACK)
@@ -204,11 +215,11 @@ func (c *compiler) stmt(cb *cbuild, self int, s *Stmt, path string) {
 		t.used = true
 		l := t.a.newLabel()
 		t.pays = append(t.pays, payEntry{code: code, label: l})
-		body, tc, p := s.Body, s.C, path
+		body, tc, p := s.Body, s.C, sub(path, idx, "body")
 		t.queue = append(t.queue, func() {
 			t.a.bind(l)
-			c.block(t, tc, body, p+".")
-			t.marks[t.a.pos()] = Mark{Ev: "ret", Path: p}
+			c.block(t, tc, body, p)
+			t.marks[t.a.pos()] = Mark{Ev: "end", Path: p}
 			t.a.op(opcode.RET)
 		})
 	case "call":
@@ -223,7 +234,7 @@ func (c *compiler) stmt(cb *cbuild, self int, s *Stmt, path string) {
 		a.op(opcode.DROP)
 		t := c.cb[s.C]
 		t.used = true
-		body, tc, p := s.Body, s.C, path
+		body, tc, p := s.Body, s.C, sub(path, idx, "body")
 		t.queue = append(t.queue, func() {
 			t.methods = append(t.methods, method{name: name, off: t.a.pos()})
 			t.a.op(opcode.INITSLOT)
@@ -231,18 +242,18 @@ func (c *compiler) stmt(cb *cbuild, self int, s *Stmt, path string) {
 			t.a.op(opcode.INITSSLOT)
 			t.a.raw(1)
 			t.a.op(opcode.LDARG0, opcode.STSFLD0)
-			c.block(t, tc, body, p+".")
-			t.marks[t.a.pos()] = Mark{Ev: "ret", Path: p}
+			c.block(t, tc, body, p)
+			t.marks[t.a.pos()] = Mark{Ev: "end", Path: p}
 			t.a.op(opcode.PUSH1, opcode.RET)
 		})
 	case "sub":
 		l := a.newLabel()
 		a.jump(opcode.CALLL, l)
-		body, p := s.Body, path
+		body, p := s.Body, sub(path, idx, "body")
 		cb.queue = append(cb.queue, func() {
 			cb.a.bind(l)
-			c.block(cb, self, body, p+".")
-			cb.marks[cb.a.pos()] = Mark{Ev: "subret", Path: p}
+			c.block(cb, self, body, p)
+			cb.marks[cb.a.pos()] = Mark{Ev: "end", Path: p}
 			cb.a.op(opcode.RET)
 		})
 	case "try":
@@ -257,23 +268,23 @@ func (c *compiler) stmt(cb *cbuild, self int, s *Stmt, path string) {
 			panic("try without catch and finally")
 		}
 		a.try(lc, lf)
-		c.block(cb, self, s.Body, path+".b")
-		cb.marks[a.pos()] = Mark{Ev: "end-body", Path: path}
+		c.block(cb, self, s.Body, sub(path, idx, "body"))
+		cb.marks[a.pos()] = Mark{Ev: "end", Path: sub(path, idx, "body")}
 		a.jump(opcode.ENDTRYL, le)
 		if s.Hc {
 			a.bind(lc)
-			cb.marks[a.pos()] = Mark{Ev: "catch", Path: path}
+			cb.marks[a.pos()] = Mark{Ev: "at", Path: sub(path, idx, "catch")}
 			a.op(opcode.DROP)
-			c.block(cb, self, s.Catch, path+".c")
-			cb.marks[a.pos()] = Mark{Ev: "end-catch", Path: path}
+			c.block(cb, self, s.Catch, sub(path, idx, "catch"))
+			cb.marks[a.pos()] = Mark{Ev: "end", Path: sub(path, idx, "catch")}
 			a.jump(opcode.ENDTRYL, le)
 		}
 		if s.Hf {
 			a.bind(lf)
-			cb.marks[a.pos()] = Mark{Ev: "fin", Path: path}
+			cb.marks[a.pos()] = Mark{Ev: "at", Path: sub(path, idx, "fin")}
 			a.op(opcode.NOP)
-			c.block(cb, self, s.Fin, path+".f")
-			cb.marks[a.pos()] = Mark{Ev: "end-fin", Path: path}
+			c.block(cb, self, s.Fin, sub(path, idx, "fin"))
+			cb.marks[a.pos()] = Mark{Ev: "end", Path: sub(path, idx, "fin")}
 			a.op(opcode.ENDFINALLY)
 		}
 		a.bind(le)
@@ -302,8 +313,8 @@ func Compile(root []Stmt, name string, sender util.Uint160) (*Compiled, error) {
 	}
 	c.entry = &cbuild{marks: map[int]Mark{}}
 	// the entry script: the prologue (hash table) is prepended by Entry(), so offsets of marks are shifted there
-	c.block(c.entry, -1, root, "")
-	c.entry.marks[c.entry.a.pos()] = Mark{Ev: "ret", Path: ""}
+	c.block(c.entry, -1, root, []any{})
+	c.entry.marks[c.entry.a.pos()] = Mark{Ev: "end", Path: []any{}}
 	c.entry.a.op(opcode.RET)
 	for again := true; again; {
 		again = drain(c.entry)
@@ -318,16 +329,21 @@ func Compile(root []Stmt, name string, sender util.Uint160) (*Compiled, error) {
 		if !cb.used {
 			continue
 		}
-		// onNEP17Payment(from, amount, data): dispatch on amount; data carries the hash table
+		// onNEP17Payment(from, amount, data): data = [hash table, code]; dispatch on code
 		a := &cb.a
 		hoff := a.pos()
 		a.op(opcode.INITSLOT)
 		a.raw(0, 3)
 		a.op(opcode.INITSSLOT)
 		a.raw(1)
-		a.op(opcode.LDARG2, opcode.STSFLD0)
+		cont := a.newLabel()
+		a.op(opcode.LDARG2, opcode.ISNULL)
+		a.jump(opcode.JMPIFNOTL, cont)
+		a.op(opcode.RET) // a plain funding transfer
+		a.bind(cont)
+		a.op(opcode.LDARG2, opcode.PUSH0, opcode.PICKITEM, opcode.STSFLD0)
 		for _, p := range cb.pays {
-			a.op(opcode.LDARG1)
+			a.op(opcode.LDARG2, opcode.PUSH1, opcode.PICKITEM)
 			a.pushInt(int64(p.code))
 			a.op(opcode.NUMEQUAL)
 			a.jump(opcode.JMPIFL, p.label)
